@@ -146,6 +146,35 @@ class OutOfFuel(Exception):
     pass
 
 
+class PurityError(Exception):
+    """An operation changed one of its arguments (set CHECK_PURITY to look for this)."""
+
+
+CHECK_PURITY = False
+
+
+def _snap(x):
+    if isinstance(x, cat.Sum):
+        return ("sum", repr(canon_sum(x)))
+    if hasattr(x, "layers"):
+        return ("diagram", repr(canon_diagram(x)))
+    return ("value", repr(x))
+
+
+def _pure(op_name, operands, thunk):
+    """Run thunk(); with CHECK_PURITY on, the operands (diagrams, sums, lists) must read the
+    same afterwards - whether thunk returned or raised."""
+    if not CHECK_PURITY:
+        return thunk()
+    before = [_snap(x) for x in operands]
+    try:
+        return thunk()
+    finally:
+        for k, (x, b) in enumerate(zip(operands, before)):
+            if _snap(x) != b:
+                raise PurityError("%s changed its argument #%d: %s -> %s" % (op_name, k, b[1][:200], _snap(x)[1][:200]))
+
+
 def interp(c, p):
     """Evaluate program p in class c through the public API.  Returns a diagram
     or a list of diagrams."""
@@ -159,13 +188,14 @@ def interp(c, p):
     if op == THEN:
         a = interp(c, p[1])
         b = interp(c, p[2])
-        return a >> b
+        return _pure("then", [a, b], lambda: a >> b)
     if op == TENSOR:
         a = interp(c, p[1])
         b = interp(c, p[2])
-        return a @ b
+        return _pure("tensor", [a, b], lambda: a @ b)
     if op == DAGGER:
-        return interp(c, p[1])[::-1]
+        a = interp(c, p[1])
+        return _pure("dagger", [a], lambda: a[::-1])
     if op == SLICE:
         return interp(c, p[1])[opt(p[2]):opt(p[3])]
     if op == SLICEREV:
@@ -173,7 +203,8 @@ def interp(c, p):
     if op == GETITEM:
         return interp(c, p[1])[p[2]]
     if op == INTERCHANGE:
-        return interp(c, p[1]).interchange(p[2], p[3], left=bool(p[4]))
+        a = interp(c, p[1])
+        return _pure("interchange", [a], lambda: a.interchange(p[2], p[3], left=bool(p[4])))
     if op == NORMALIZE:
         d = interp(c, p[1])
         steps = list(itertools.islice(
@@ -188,9 +219,11 @@ def interp(c, p):
     if op == SWAP:
         return c.Diagram.swap(c.ty(p[1]), c.ty(p[2]))
     if op == PERMUTATION:
-        return c.Diagram.permutation(list(p[1]), c.ty(p[2]))
+        perm = list(p[1])
+        return _pure("permutation", [perm], lambda: c.Diagram.permutation(perm, c.ty(p[2])))
     if op == PERMUTE:
-        return interp(c, p[1]).permute(*p[2])
+        a = interp(c, p[1])
+        return _pure("permute", [a], lambda: a.permute(*p[2]))
     if op == CUPS:
         return c.Diagram.cups(c.ty(p[1]), c.ty(p[2]))
     if op == CAPS:
@@ -199,7 +232,8 @@ def interp(c, p):
         return interp(c, p[1]).transpose(left=bool(p[2]))
     if op == FUNCTOR:
         d = interp(c, p[3])
-        return make_functor(c, p[1], p[2])(d)
+        F = make_functor(c, p[1], p[2])
+        return _pure("functor application", [d], lambda: F(d))
     if op == FOLIATE:
         return list(interp(c, p[1]).foliate())
     if op == FOLIATION:
@@ -299,17 +333,18 @@ def interp_sum(c, sp):
     if op == SADD:
         a = interp_sum(c, sp[1])
         b = interp_sum(c, sp[2])
-        return a + b
+        return _pure("sum +", [a, b], lambda: a + b)
     if op == STHEN:
         a = interp_sum(c, sp[1])
         b = interp_sum(c, sp[2])
-        return a >> b
+        return _pure("sum >>", [a, b], lambda: a >> b)
     if op == STENSOR:
         a = interp_sum(c, sp[1])
         b = interp_sum(c, sp[2])
-        return a @ b
+        return _pure("sum @", [a, b], lambda: a @ b)
     if op == SDAGGER:
-        return interp_sum(c, sp[1])[::-1]
+        a = interp_sum(c, sp[1])
+        return _pure("sum dagger", [a], lambda: a[::-1])
     raise AssertionError("bad sum opcode %r" % (op,))
 
 
